@@ -46,12 +46,12 @@ const vns = "/test"
 
 // Spec describes a cluster and its configuration.
 type Spec struct {
-	HA      []string          `json:"ha"`
-	Cascade map[string]string `json:"cascade,omitempty"` // cascade host -> stream_from
-	Conf    map[string]string `json:"conf,omitempty"`    // top-level YAML overrides
-	ZKConf  map[string]string `json:"zkconf,omitempty"`  // zookeeper: overrides
-	OptConf map[string]string `json:"optconf,omitempty"` // optimization_config: overrides
-	CustomLag bool            `json:"custom_lag,omitempty"` // configure queries.replication_lag (lag independent of thread state)
+	HA        []string          `json:"ha"`
+	Cascade   map[string]string `json:"cascade,omitempty"`    // cascade host -> stream_from
+	Conf      map[string]string `json:"conf,omitempty"`       // top-level YAML overrides
+	ZKConf    map[string]string `json:"zkconf,omitempty"`     // zookeeper: overrides
+	OptConf   map[string]string `json:"optconf,omitempty"`    // optimization_config: overrides
+	CustomLag bool              `json:"custom_lag,omitempty"` // configure queries.replication_lag (lag independent of thread state)
 }
 
 func (s Spec) AllHosts() []string {
@@ -607,4 +607,25 @@ func (h *H) Writable() []string {
 	}
 	sort.Strings(r)
 	return r
+}
+
+
+// PanicWhere extracts the repository frames of the recorded panic stacks.
+func (h *H) PanicWhere() string {
+	var out []string
+	for _, st := range h.W.PanicStacks {
+		for _, l := range strings.Split(st, "\n") {
+			l = strings.TrimSpace(l)
+			if strings.Contains(l, "/internal/") && strings.Contains(l, ".go:") && !strings.Contains(l, "/internal/verif/") && !strings.Contains(l, "zz_verif") {
+				if i := strings.Index(l, " +0x"); i > 0 {
+					l = l[:i]
+				}
+				out = append(out, l[strings.Index(l, "/internal/")+1:])
+				if len(out) >= 4 {
+					return strings.Join(out, " <- ")
+				}
+			}
+		}
+	}
+	return strings.Join(out, " <- ")
 }
